@@ -1133,6 +1133,29 @@ func (env *SpecEnv) call(x SCall) SpecVal {
 			specFail("resultof(%s): the call has not been executed on this path", id.Name)
 		}
 		return SpecVal{T: tup[k], Ty: sig.Results().At(k).Type()}
+	case "received":
+		// received(x): x is the value taken off a channel by the case that fired in the select statement executed last
+		// (in a service loop: the select of this iteration). False when a case without a matching receive fired.
+		if fx.lastSelect == nil {
+			specFail("received(x): no select statement has been executed")
+		}
+		v := argv(0)
+		tup := fx.tuples[fx.lastSelect]
+		var alts []Term
+		k := 2
+		for j, sst := range fx.lastSelect.States {
+			if sst.Dir != types.RecvOnly {
+				continue
+			}
+			if k < len(tup) && tup[k].Sort == v.T.Sort {
+				alts = append(alts, And(Eq(tup[0], IntLit(int64(j))), Eq(v.T, tup[k])))
+			}
+			k++
+		}
+		if len(alts) == 0 {
+			return SpecVal{T: TFalse}
+		}
+		return SpecVal{T: Or(alts...)}
 	case "deferred":
 		// deferred(F): at this point a deferred call of F is registered on EVERY path that reaches here (it will run
 		// whichever way the function returns from now on). Decided on the symbolic defer stack, not by the solver.
